@@ -1054,6 +1054,65 @@ theorem between_in_agree (x a b : Value) (h1 : SameOrderedKind x a) (h2 : SameOr
       cases h2 with
       | dateTime _ b kx' kb hx' hb => rfl
 
+/-- `x between a and b` and `x in [a..b]` are the same function of ALL values - of one ordered kind or not, null
+included: outside one ordered kind both are null (the two evaluators, `build_between` and `eval_in_range`, are written
+separately). `between_in_agree` adds the conjunction of the two comparisons for operands of one ordered kind; for mixed
+kinds the conjunction can be false where `between` is null (`1 between 2 and "a"`: `2 <= 1` is false). -/
+theorem between_eq_in_closed (x a b : Value) : betweenV x a b = inRangeV x (.range a true b true) := by
+  cases x with
+  | num v =>
+    cases a with
+    | num a' =>
+      cases b with
+      | num b' =>
+        simp only [betweenV, inRangeV]
+        rw [Dec.cmp_swap v a']
+        cases Dec.cmp v a' <;> cases Dec.cmp v b' <;> rfl
+      | _ => rfl
+    | _ => cases b <;> rfl
+  | str v =>
+    cases a with
+    | str a' =>
+      cases b with
+      | str b' =>
+        simp only [betweenV, inRangeV]
+        rw [String.compare_swap' v a']
+        cases compare v a' <;> cases compare v b' <;> rfl
+      | _ => rfl
+    | _ => cases b <;> rfl
+  | date y m d =>
+    cases a with
+    | date y1 m1 d1 => cases b <;> rfl
+    | _ => cases b <;> rfl
+  | time t =>
+    cases a with
+    | time t1 => cases b <;> rfl
+    | _ => cases b <;> rfl
+  | dateTime t =>
+    cases a with
+    | dateTime t1 => cases b <;> rfl
+    | _ => cases b <;> rfl
+  | dtDur v =>
+    cases a with
+    | dtDur a' =>
+      cases b with
+      | dtDur b' => simp [betweenV, inRangeV, GE.ge]
+      | _ => rfl
+    | _ => cases b <;> rfl
+  | ymDur v =>
+    cases a with
+    | ymDur a' =>
+      cases b with
+      | ymDur b' => simp [betweenV, inRangeV, GE.ge]
+      | _ => rfl
+    | _ => cases b <;> rfl
+  | _ => rfl
+
+theorem between_mixed_kinds_counterexample :
+    betweenV (.num ⟨false, 1, 0⟩) (.num ⟨false, 2, 0⟩) (.str "a") = .null ∧
+    and3 (leV (.num ⟨false, 2, 0⟩) (.num ⟨false, 1, 0⟩)) (leV (.num ⟨false, 1, 0⟩) (.str "a")) = .bool false := by
+  constructor <;> rfl
+
 /-! ## non-vacuity -/
 
 example : WF (.ctx [("a", .num ⟨false, 1, 0⟩), ("b", .str "x")]) ∧
